@@ -188,11 +188,19 @@ def _default(k):
 _GEN = [None]
 
 
+_HANGS = [0]
+
+
 def run_params(p, rep, record=True, reuse=False):
     """reuse=True: generate on ONE long-lived ScenarioGenerator object (the documented class API) that has
     already produced other scenarios in this process"""
     import nasim
     failed = set()
+    if record and _HANGS[0] >= 12:
+        # twelve generations of this shard already ran into the line budget (each costs seconds):
+        # they are reported; the remaining parameter sets are counted, not generated
+        rep.count("skipped-after-12-non-terminating-generations")
+        return failed
     if record:
         rep.evaluated()
     try:
@@ -207,6 +215,7 @@ def run_params(p, rep, record=True, reuse=False):
             else:
                 scn, lines = traced_call(lambda: nasim.generate_scenario(**p))
         except BudgetExceeded:
+            _HANGS[0] += 1
             raise Failure("C15:termination", f"generate_scenario(**{p}) did not return within {LINE_BUDGET} traced lines")
         except Failure:
             raise
